@@ -618,7 +618,9 @@ def rule_forward(fx, rep):
             "pawn": any("PieceKind::Pawn" in t for t in txts),
             "start-rank": any("pawn_back_rank" in t for t in txts),
             "double-push-rank": any("pawn_double_push_rank" in t for t in txts),
-            "enemy-pawn-beside": any("Board::pawns" in t and "Player::other" in t and ("Bitboard::west" in t or "Bitboard::east" in t) for t in txts),
+            # an enemy pawn on a square next to the destination - or, equivalently, among the squares from which a pawn attacks
+            # the skipped square
+            "enemy-pawn-beside": any("Board::pawns" in t and "Player::other" in t and ("Bitboard::west" in t or "Bitboard::east" in t or "pawn_attacks" in t) for t in txts),
         }
 
     verdict = None  # (good, why)
@@ -630,6 +632,15 @@ def rule_forward(fx, rep):
                 conds = guard_conditions(bm, bb, expand_named=True)
                 need = need_from([show(e) for (e, pol, w) in conds if pol is True])
                 verdict = (all(need.values()), f"conditions present: {need}")
+    if verdict is None:
+        # `cond.then_some(from.forward(player))`
+        for bb, t in bm.calls():
+            if norm(callee_name(t) or "").endswith("bool::then_some") and len(t["args"]) == 2:
+                v = deep_strip(bm.expr(t["args"][1], expand_named=True, at=bb))
+                if isinstance(v, tuple) and v[0] == "call" and v[1].endswith("Square::forward") and sq_kind(v[2][0]) == "from" and is_mover(v[2][1]):
+                    conds = guard_conditions(bm, bb, expand_named=True)
+                    need = need_from([show(e) for (e, pol, w) in conds if pol is True] + [show(bm.expr(t["args"][0], expand_named=True, at=bb))])
+                    verdict = (all(need.values()), f"conditions present: {need}")
     if verdict is None:
         for cb_bb, t in bm.calls():
             cb = fx.body(callee_name(t) or "")
@@ -775,6 +786,12 @@ def rule_forward(fx, rep):
 
 G = "src/chess/game.rs"
 MUTANTS = [
+    {"name": "en-passant target recorded when any enemy piece attacks the skipped square (seed C02-6b)", "expect": "C02-FORWARD/ep-target",
+     "edits": [("src/chess/game.rs", "            let to_bb = to.bb();\n            let en_passant_attacker_squares = to_bb.west() | to_bb.east();\n            let enemy_pawns = self.board.pawns(other_player);\n            let en_passant_can_happen = (en_passant_attacker_squares & enemy_pawns).any();\n\n            if en_passant_can_happen {\n                Some(from.forward(player))\n            } else {\n                None\n            }",
+                "            let skipped_square = from.forward(player);\n            let en_passant_can_happen = crate::chess::movegen::generate_attackers_of(&self.board, player, skipped_square).any();\n            en_passant_can_happen.then_some(skipped_square)")]},
+    {"name": "benign: en-passant target via then_some and the pawn attack pattern of the skipped square", "benign": True,
+     "edits": [("src/chess/game.rs", "            let to_bb = to.bb();\n            let en_passant_attacker_squares = to_bb.west() | to_bb.east();\n            let enemy_pawns = self.board.pawns(other_player);\n            let en_passant_can_happen = (en_passant_attacker_squares & enemy_pawns).any();\n\n            if en_passant_can_happen {\n                Some(from.forward(player))\n            } else {\n                None\n            }",
+                "            let skipped_square = from.forward(player);\n            let en_passant_can_happen = (crate::chess::movegen::tables::pawn_attacks(skipped_square, player) & self.board.pawns(other_player)).any();\n            en_passant_can_happen.then_some(skipped_square)")]},
     {"name": "saved-state stack with a fixed capacity of 1024 (seed C02-5a)", "expect": "C02-HIST/capacity",
      "edits": [("src/chess/game.rs", "use crate::engine::eval::IncrementalEvalFields;\n", "use crate::engine::eval::IncrementalEvalFields;\nuse arrayvec::ArrayVec;\n"),
                ("src/chess/game.rs", "    pub history: Vec<History>,", "    pub history: ArrayVec<History, 1024>,"),
